@@ -524,6 +524,10 @@ func (e *executor) executeMinRow(ctx context.Context, index string, c *pql.Call,
 		return ValCount{}, errors.New("MinRow(): field required")
 	}
 
+	// Without a filter a shard reports count 1 for "the row exists"; with a
+	// filter it reports the number of columns of the row inside the filter.
+	filtered := len(c.Children) == 1
+
 	// Execute calls in bulk on each remote node and merge.
 	mapFn := func(shard uint64) (interface{}, error) {
 		return e.executeMinRowShard(ctx, index, c, shard)
@@ -536,6 +540,12 @@ func (e *executor) executeMinRow(ctx context.Context, index string, c *pql.Call,
 		prevp, _ := prev.(Pair)
 		vp, _ := v.(Pair)
 		if prevp.Count > 0 && vp.Count > 0 {
+			if prevp.ID == vp.ID && filtered {
+				// Same row in several shards: the count is the number of
+				// columns of the row inside the filter across those shards.
+				vp.Count += prevp.Count
+				return vp
+			}
 			if prevp.ID < vp.ID {
 				return prevp
 			}
@@ -558,6 +568,10 @@ func (e *executor) executeMaxRow(ctx context.Context, index string, c *pql.Call,
 		return ValCount{}, errors.New("MaxRow(): field required")
 	}
 
+	// Without a filter a shard reports count 1 for "the row exists"; with a
+	// filter it reports the number of columns of the row inside the filter.
+	filtered := len(c.Children) == 1
+
 	// Execute calls in bulk on each remote node and merge.
 	mapFn := func(shard uint64) (interface{}, error) {
 		return e.executeMaxRowShard(ctx, index, c, shard)
@@ -570,6 +584,12 @@ func (e *executor) executeMaxRow(ctx context.Context, index string, c *pql.Call,
 		prevp, _ := prev.(Pair)
 		vp, _ := v.(Pair)
 		if prevp.Count > 0 && vp.Count > 0 {
+			if prevp.ID == vp.ID && filtered {
+				// Same row in several shards: the count is the number of
+				// columns of the row inside the filter across those shards.
+				vp.Count += prevp.Count
+				return vp
+			}
 			if prevp.ID > vp.ID {
 				return prevp
 			}
